@@ -15,8 +15,10 @@ pub mod mem;
 pub mod model;
 pub mod procfs;
 pub mod props;
+pub mod reload;
 pub mod report;
 pub mod rng;
+pub mod scen;
 pub mod util;
 
 pub use report::{Args, Report};
